@@ -485,6 +485,46 @@ def r117(ctx, fx):
                         "no longer holds it) disappears from the listing" % ("`/`".join(sorted(tested)) or "?", c, "`/`".join(sorted(tested)) or "?"), tl.where)
 
 
+def r118(ctx, fx):
+    rid = ctx.rule("R11.8", "a target address alone identifies no byte: segments may share target addresses (overlays with the same `pc`, banks), so in the listing and "
+                   "source-map code no map or set is keyed by a TARGET-labelled address alone (BTreeMap/HashMap::insert/entry, BTreeSet/HashSet::insert with a key "
+                   "of a plain address type) — the second byte at an address replaces the first and a byte of the image is never listed")
+    TT = taint.Taint(fx, "TARGET", source_calls=["Segment::target_pc", "CodegenContext::try_current_target_pc"],
+                     source_fields=[("SourceMapOffset", "pc")], carrier=ADDR_CARRIER, kill=taint.DEFAULT_KILL)
+    PLAIN = ("usize", "u16", "u32", "u64", "i64", "mos_core::codegen::program_counter::ProgramCounter", "ProgramCounter")
+    n = 0
+    scanned = 0
+    seen = {}
+    for f in sorted(fx.all_fns("mos_core"), key=lambda f: f.path):
+        if "::tests::" in f.path or not (f.path.startswith("mos_core::io::listing") or f.path.startswith("mos_core::codegen::source_map")) or not f.blocks:
+            continue
+        scanned += 1
+        for bi, t in lib.calls(f):
+            p, fr = lib.callee(t)
+            pn = lib.norm(p or "")
+            if not (pn.endswith(("Map::insert", "Map::entry", "Set::insert")) or any(pn.endswith(x) for x in (
+                    "BTreeMap::<K, V, A>::insert", "BTreeMap::<K, V, A>::entry", "HashMap::<K, V, S, A>::insert", "HashMap::<K, V, S, A>::entry",
+                    "BTreeSet::<T, A>::insert", "HashSet::<T, S, A>::insert"))):
+                continue
+            n += 1
+            gen = fr.get("gen") or []
+            ktype = str(gen[0]) if gen else ""
+            key_op = t["args"][1] if len(t.get("args", [])) > 1 else None
+            labelled = key_op is not None and TT.op_tainted(f.id, key_op)
+            seen[f.path] = seen.get(f.path, 0) + 1
+            k = "%s|keyed#%d" % (f.path, seen[f.path])
+            ctx.inst(rid, k, sample={"fn": f.path, "call": pn.rsplit("::", 2)[-2] + "::" + pn.rsplit("::", 1)[-1], "key_type": ktype, "key_is_a_target_address": labelled,
+                                     "line": t.get("line")})
+            if labelled and ktype in PLAIN:
+                ctx.finding(rid, k, "%s keys a collection by a target address alone (%s<%s, …>, line %s): when one source line emitted to the same target address in two "
+                            "segments (a file imported into two overlays that run at the same `pc`), the later byte replaces the earlier one and that byte of the "
+                            "image appears in no listing" % (f.path.rsplit("::", 1)[-1], pn.rsplit("::", 2)[-2].split("<")[0], ktype, t.get("line")),
+                            "%s:%s" % (f.file, t.get("line")))
+    ctx.inst(rid, "scan", sample={"functions_scanned": scanned, "keyed_insertions": n})
+    if scanned < 5:
+        ctx.fail_closed(rid, "fewer than 5 functions of the listing / source-map modules found (%d)" % scanned)
+
+
 def run(ctx):
     fx = ctx.facts
     cg = lib.CallGraph(fx)
@@ -492,6 +532,7 @@ def run(ctx):
     r115(ctx, fx, cg)
     r116(ctx, fx)
     r117(ctx, fx)
+    r118(ctx, fx)
     r112(ctx, fx)
     r113(ctx, fx, cg)
     r114(ctx, fx)
